@@ -515,14 +515,26 @@ func genC11(c *Ctx) {
 	c.rule = "tx lists as in C09 plus one multi-share transaction of delimiter look-alike bytes and 3-byte-prefix straddles; ParseTxs on EVERY contiguous sub-range [lo,hi) of the exported sequence, compared with the set of transactions that begin in the range and are complete in it; non-trivial = distinct (length list, lo, hi) with lo>0 or hi<n"
 	r := c.rng
 	nseq := 70 * c.scale
-	for i := 0; i < nseq; i++ {
+	// corpus: minimized witnesses of earlier findings, always run first
+	corpus := [][][]byte{
+		{make([]byte, 10), bytes.Repeat([]byte{3}, 2000), make([]byte, 20)},           // range starting inside a long tx (reserved bytes 0)
+		{r.Bytes(470), r.Bytes(16385)},                                                // 3-byte prefix cut after 2 bytes
+		{r.Bytes(471), r.Bytes(16385)},                                                // 3-byte prefix cut after 1 byte
+		{r.Bytes(470), r.Bytes(32769), r.Bytes(5)},                                    // same family, longer
+		{r.Bytes(470), r.Bytes(16386)},                                                // truncated prefix decodes to a small length
+		{r.Bytes(30), bytes.Repeat([]byte{1, 0x80, 2}, 900), r.Bytes(30), r.Bytes(3)}, // a tx covering 5+ shares of delimiter look-alikes
+	}
+	for i := 0; i < nseq+len(corpus); i++ {
 		ns := share.TxNamespace.Bytes()
 		if r.Bool(40) {
 			ns = share.PayForBlobNamespace.Bytes()
 		}
 		txs := compactTxList(c, r, 1+r.Intn(7))
+		if i < len(corpus) {
+			txs = corpus[i]
+		}
 		// a long transaction of look-alike bytes spanning >= 3 shares somewhere in the list
-		if r.Bool(70) {
+		if i >= len(corpus) && r.Bool(70) {
 			long := make([]byte, 1000+r.Intn(1500))
 			for j := range long {
 				long[j] = byte([]int{1, 2, 3, 4, 5, 0x80}[r.Intn(6)])
@@ -531,13 +543,14 @@ func genC11(c *Ctx) {
 			txs = append(txs[:pos], append([][]byte{long}, txs[pos:]...)...)
 		}
 		// 3-byte delimiter cut after 1 or 2 bytes by a share end
-		if r.Bool(35) && c.tier != "" {
-			lead := 474 - 1 - r.Intn(2) - 2 // unit of (lead) bytes incl. 2-byte prefix => next prefix starts 1-2 bytes before the share end
+		if i >= len(corpus) && r.Bool(35) {
+			lead := 474 - 1 - r.Intn(2) // unit of (lead) bytes incl. 2-byte prefix => the next 3-byte prefix starts 1-2 bytes before the share end
 			if lead > 130 {
-				txs = append([][]byte{r.Bytes(lead - 2)}, append([][]byte{r.Bytes(pick(r, []int{16385, 16386}))}, txs[:min(len(txs), 2)]...)...)
+				txs = append([][]byte{r.Bytes(lead - 2)}, append([][]byte{r.Bytes(pick(r, []int{16385, 16386, 32769}))}, txs[:min(len(txs), 2)]...)...)
+				c.count("prefix_straddle")
 			}
 		}
-		if r.Intn(2) == 0 && len(txs) > 6 {
+		if i >= len(corpus) && r.Intn(2) == 0 && len(txs) > 6 {
 			txs = txs[:6]
 		}
 		css := share.NewCompactShareSplitter(nsOf(ns), 0)
@@ -548,7 +561,7 @@ func genC11(c *Ctx) {
 		if err != nil || len(shs) == 0 {
 			continue
 		}
-		if len(shs) > 45 && c.tier == "quick" {
+		if i >= len(corpus) && len(shs) > 45 && c.tier == "quick" {
 			continue
 		}
 		c.add("subranges", hx(ns), joinHexList(txs))
